@@ -402,7 +402,19 @@ def run_op(w, op):
         w.sim = step_ops.apply_instructions(sim, env, tuple(instrs))
         txt = 'XStep (OpApply ' + lst([w.instr(i) for i in instrs]) + ')'
     elif kind == 'update':
-        w.sim = step_ops.perform_vehicle_state_updates(sim, env)
+        # record which vehicles the pass updates, in which order (compared with the model's update order by monitors.update_pass):
+        # the pass looks `step_vehicle` up in its module at call time, so wrapping it there needs no change to the source
+        seen_order = []
+        orig = step_ops.step_vehicle
+        def _recording(simulation_state, environment, vehicle, *a, **k):
+            seen_order.append(vehicle.id)
+            return orig(simulation_state, environment, vehicle, *a, **k)
+        step_ops.step_vehicle = _recording
+        try:
+            w.sim = step_ops.perform_vehicle_state_updates(sim, env)
+        finally:
+            step_ops.step_vehicle = orig
+        w.last_update_order = seen_order
         txt = 'XStep OpUpdateVehicles'
     elif kind == 'cancel':
         w.sim, _ = CancelRequests().update(sim, env)
